@@ -88,6 +88,15 @@ func fanOut(o opts, family string, prop int, prefix string, n int, get func(i in
 				sink.PutRaw(prop, fmt.Sprintf("%s%d", prefix, i), "(child-failed)", "(child-failed)", map[string]interface{}{"case": c, "child_output": msg})
 				return
 			}
+			// the child may have annotated its case description
+			if mb, err := os.ReadFile(filepath.Join(outdir, family+".meta.jsonl")); err == nil {
+				var m struct {
+					Case json.RawMessage `json:"case"`
+				}
+				if json.Unmarshal([]byte(strings.SplitN(string(mb), "\n", 2)[0]), &m) == nil && len(m.Case) > 0 {
+					c = m.Case
+				}
+			}
 			sink.PutRaw(prop, fmt.Sprintf("%s%d", prefix, i), parts[2], parts[3], c)
 		}(i)
 	}
